@@ -1,11 +1,13 @@
 (* C12 -- Condition blocks combine operators, keys, values and qualifiers as IAM specifies.
-   Statements only; every proof is [exact] of a lemma proved in Iam/BlockFacts.v.
+   Statements only; every proof is [exact] of a lemma proved in Iam/BlockFacts.v or Iam/BlockAlgebra.v (the algebra of
+   blocks: order independence, value lists as disjunction / conjunction, blocks as conjunctions, qualifiers, context
+   irrelevance, empty block and Null -- second half of this file).
 
    eval_block test ord b ctx  is  StatementCondition.model_validate(b)(ctx):  Some b = returned b, None = returned None.
    [test] is the single-value comparison (instance: Ops.op_test fold, property C11) and is arbitrary in every theorem;
    [ord] is the operator table (instance: the generated table OPERATORS of the live class) and is arbitrary too. *)
-From Coq Require Import List Bool NArith ZArith.
-From PV Require Import Base.Str Base.Value Iam.IpNet Iam.Ops Iam.OpNames Iam.Block Iam.BlockFacts Iam.OpTable.
+From Coq Require Import List Bool NArith ZArith Permutation.
+From PV Require Import Base.Str Base.Value Iam.IpNet Iam.Ops Iam.OpNames Iam.Block Iam.BlockFacts Iam.OpTable Iam.BlockAlgebra.
 From PVGen Require Import Operators.
 Import ListNotations.
 
@@ -107,6 +109,528 @@ Theorem C12_colon_block :
 Proof. exact colon_irrelevant. Qed.
 Print Assumptions C12_colon_block.
 
+(* =================================================================================================================
+   THE ALGEBRA OF CONDITION BLOCKS (Iam/BlockAlgebra.v).
+   The verdict is three-valued (Some true | Some false | None = undetermined).  Python's all()/any() stop at the first
+   decisive member and an exception aborts them, so "True" never depends on an evaluation order while the split between
+   False and None may.  Each law is therefore given as: the unconditional part; full three-valued equality under a
+   definedness hypothesis; and, where full equality fails without it, a refutation with a concrete witness.
+
+   and_sc x y / or_sc x y : left-to-right and-then / or-else (None on the left makes the whole None);
+   and3_spec r1 r2 r      : r is a conjunction of r1 and r2 evaluated in an unknown interleaving:
+                            true & y = y, x & true = x, false & false = false, None & None = None,
+                            false & None (either way) = false OR None.
+   ================================================================================================================= *)
+
+(* ---- 1. order independence ---- *)
+
+(* the order of the operators of a block is irrelevant, undetermined case included, provided no operator is written
+   twice (only possible with two colon spellings of one name) *)
+Theorem C12_operator_order_blind :
+  forall (test : base_op -> cval -> cval -> option bool) (ord : list op_entry) (b b' : block) (ctx : context),
+    NoDup (map fst (norm_block b)) -> Permutation b b' -> eval_block test ord b ctx = eval_block test ord b' ctx.
+Proof. exact block_perm_ops. Qed.
+Print Assumptions C12_operator_order_blind.
+
+(* ... and the side condition is needed: {"StringEquals": {"k1": "b"}, "String:Equals": {"k1": "a"}} on {"k1": "a"}
+   is True, with the two operators swapped it is False (the later spelling replaces the earlier one) *)
+Theorem C12_operator_order_nodup_needed :
+  exists b1 b2 ctx, Permutation b1 b2 /\ Witness.ev b1 ctx = Some true /\ Witness.ev b2 ctx = Some false.
+Proof. exact Witness.ops_order_nodup_needed. Qed.
+Print Assumptions C12_operator_order_nodup_needed.
+
+(* the order of the keys under one operator: "satisfied" is order-free ... *)
+Theorem C12_key_order_blind :
+  forall (test : base_op -> cval -> cval -> option bool) (ord : list op_entry) (b b' : block) (ctx : context),
+    keys_permuted b b' -> (eval_block test ord b ctx = Some true <-> eval_block test ord b' ctx = Some true).
+Proof. exact block_perm_keys_true. Qed.
+Print Assumptions C12_key_order_blind.
+
+(* ... the whole verdict is order-free when every key's verdict is defined ... *)
+Theorem C12_key_order_blind_defined :
+  forall (test : base_op -> cval -> cval -> option bool) (ord : list op_entry) (b b' : block) (ctx : context),
+    keys_permuted b b' ->
+    (forall e g k pv, is_set ord b e g -> In (k, pv) g -> eval_key test e k pv ctx <> None) ->
+    eval_block test ord b ctx = eval_block test ord b' ctx.
+Proof. exact block_perm_keys. Qed.
+Print Assumptions C12_key_order_blind_defined.
+
+(* ... in general a permutation of keys can only exchange False and None ... *)
+Theorem C12_key_order_weak :
+  forall (test : base_op -> cval -> cval -> option bool) (ord : list op_entry) (b b' : block) (ctx : context),
+    keys_permuted b b' ->
+    eval_block test ord b ctx = eval_block test ord b' ctx \/
+    (eval_block test ord b ctx <> Some true /\ eval_block test ord b' ctx <> Some true).
+Proof. exact block_perm_keys_weak. Qed.
+Print Assumptions C12_key_order_weak.
+
+(* ... and it does: {"StringEquals": {"k1": "a", "k2": "b"}} on {"k1": "x"} is False (k1 fails first),
+   {"StringEquals": {"k2": "b", "k1": "a"}} is None (k2 is missing and is looked at first) *)
+Theorem C12_key_order_refuted :
+  exists b1 b2 ctx, keys_permuted b1 b2 /\ Witness.ev b1 ctx = Some false /\ Witness.ev b2 ctx = None.
+Proof. exact Witness.key_order_refuted. Qed.
+Print Assumptions C12_key_order_refuted.
+
+(* the same for one operator's group *)
+Theorem C12_entry_key_order :
+  forall (test : base_op -> cval -> cval -> option bool) (e : op_entry) (g g' : groups) (ctx : context),
+    Permutation g g' ->
+    (eval_entry test ctx (e, g) = Some true <-> eval_entry test ctx (e, g') = Some true).
+Proof. exact entry_perm_true. Qed.
+Print Assumptions C12_entry_key_order.
+
+Theorem C12_entry_key_order_defined :
+  forall (test : base_op -> cval -> cval -> option bool) (e : op_entry) (g g' : groups) (ctx : context),
+    Permutation g g' -> (forall k pv, In (k, pv) g -> eval_key test e k pv ctx <> None) ->
+    eval_entry test ctx (e, g) = eval_entry test ctx (e, g').
+Proof. exact entry_perm. Qed.
+Print Assumptions C12_entry_key_order_defined.
+
+(* ---- 2. the values listed under one key ---- *)
+
+(* exact, with the undetermined case: or-else for a positive operator, and-then for a negated one *)
+Theorem C12_values_app :
+  forall (test : base_op -> cval -> cval -> option bool) (o : base_op) (ps qs : list cval) (c : cval),
+    value_ok test o (ps ++ qs) c =
+    (if negated o then and_sc else or_sc) (value_ok test o ps c) (value_ok test o qs c).
+Proof. exact value_ok_app. Qed.
+Print Assumptions C12_values_app.
+
+Theorem C12_values_cons :
+  forall (test : base_op -> cval -> cval -> option bool) (o : base_op) (p : cval) (ps : list cval) (c : cval),
+    value_ok test o (p :: ps) c = (if negated o then and_sc else or_sc) (test o p c) (value_ok test o ps c).
+Proof. exact value_ok_cons. Qed.
+Print Assumptions C12_values_cons.
+
+Theorem C12_values_single :
+  forall (test : base_op -> cval -> cval -> option bool) (o : base_op) (p c : cval), value_ok test o [p] c = test o p c.
+Proof. exact value_ok_single. Qed.
+Print Assumptions C12_values_single.
+
+(* positive operator: the verdict is the DISJUNCTION over the values *)
+Theorem C12_values_disjunction :
+  forall (test : base_op -> cval -> cval -> option bool) (o : base_op) (ps : list cval) (c : cval),
+    negated o = false ->
+    (value_ok test o ps c = Some true -> exists p, In p ps /\ test o p c = Some true) /\
+    (value_ok test o ps c = Some false <-> forall p, In p ps -> test o p c = Some false) /\
+    (comparable_vals test o ps c -> (value_ok test o ps c = Some true <-> exists p, In p ps /\ test o p c = Some true)).
+Proof. exact values_disjunction. Qed.
+Print Assumptions C12_values_disjunction.
+
+(* negated operator: the CONJUNCTION *)
+Theorem C12_negated_values_conjunction :
+  forall (test : base_op -> cval -> cval -> option bool) (o : base_op) (ps : list cval) (c : cval),
+    negated o = true ->
+    (value_ok test o ps c = Some true <-> forall p, In p ps -> test o p c = Some true) /\
+    (value_ok test o ps c = Some false -> exists p, In p ps /\ test o p c = Some false) /\
+    (comparable_vals test o ps c -> (value_ok test o ps c = Some false <-> exists p, In p ps /\ test o p c = Some false)).
+Proof. exact negated_values_conjunction. Qed.
+Print Assumptions C12_negated_values_conjunction.
+
+(* MONOTONE: more values under a positive operator can only turn False into True *)
+Theorem C12_values_monotone :
+  forall (test : base_op -> cval -> cval -> option bool) (o : base_op) (ps qs : list cval) (c : cval),
+    negated o = false -> incl ps qs ->
+    (value_ok test o qs c = Some false -> value_ok test o ps c = Some false) /\
+    (comparable_vals test o qs c -> value_ok test o ps c = Some true -> value_ok test o qs c = Some true).
+Proof. exact values_monotone. Qed.
+Print Assumptions C12_values_monotone.
+
+Theorem C12_values_monotone_app :
+  forall (test : base_op -> cval -> cval -> option bool) (o : base_op) (ps qs : list cval) (c : cval),
+    negated o = false -> value_ok test o ps c = Some true -> value_ok test o (ps ++ qs) c = Some true.
+Proof. exact values_monotone_app. Qed.
+Print Assumptions C12_values_monotone_app.
+
+Theorem C12_values_add_one :
+  forall (test : base_op -> cval -> cval -> option bool) (o : base_op) (p : cval) (ps : list cval) (c : cval),
+    negated o = false -> test o p c <> None ->
+    value_ok test o ps c = Some true -> value_ok test o (p :: ps) c = Some true.
+Proof. exact values_add_one. Qed.
+Print Assumptions C12_values_add_one.
+
+(* more values under a negated operator can only turn True into False *)
+Theorem C12_negated_values_antimonotone :
+  forall (test : base_op -> cval -> cval -> option bool) (o : base_op) (ps qs : list cval) (c : cval),
+    negated o = true -> incl ps qs ->
+    (value_ok test o qs c = Some true -> value_ok test o ps c = Some true) /\
+    (comparable_vals test o qs c -> value_ok test o ps c = Some false -> value_ok test o qs c = Some false).
+Proof. exact negated_values_antimonotone. Qed.
+Print Assumptions C12_negated_values_antimonotone.
+
+Theorem C12_negated_values_antimonotone_app :
+  forall (test : base_op -> cval -> cval -> option bool) (o : base_op) (ps qs : list cval) (c : cval),
+    negated o = true -> value_ok test o ps c = Some false -> value_ok test o (ps ++ qs) c = Some false.
+Proof. exact negated_values_antimonotone_app. Qed.
+Print Assumptions C12_negated_values_antimonotone_app.
+
+(* the value list is a SET when the comparisons are defined: order and repetition are irrelevant *)
+Theorem C12_values_set :
+  forall (test : base_op -> cval -> cval -> option bool) (o : base_op) (ps qs : list cval) (c : cval),
+    (forall p, In p ps <-> In p qs) -> comparable_vals test o ps c -> value_ok test o ps c = value_ok test o qs c.
+Proof. exact values_same_set. Qed.
+Print Assumptions C12_values_set.
+
+Theorem C12_values_perm :
+  forall (test : base_op -> cval -> cval -> option bool) (o : base_op) (ps qs : list cval) (c : cval),
+    Permutation ps qs -> comparable_vals test o ps c -> value_ok test o ps c = value_ok test o qs c.
+Proof. exact values_perm. Qed.
+Print Assumptions C12_values_perm.
+
+(* unconditionally: the verdict that needs ALL values (False for a positive, True for a negated operator) is
+   order-free, and a permutation can only trade the other verdict for None *)
+Theorem C12_values_perm_weak :
+  forall (test : base_op -> cval -> cval -> option bool) (o : base_op) (ps qs : list cval) (c : cval),
+    Permutation ps qs ->
+    (value_ok test o ps c = Some (negated o) <-> value_ok test o qs c = Some (negated o)) /\
+    (value_ok test o ps c = value_ok test o qs c \/
+     (value_ok test o ps c <> Some (negated o) /\ value_ok test o qs c <> Some (negated o))).
+Proof. exact values_perm_weak. Qed.
+Print Assumptions C12_values_perm_weak.
+
+Theorem C12_values_dup :
+  forall (test : base_op -> cval -> cval -> option bool) (o : base_op) (p : cval) (ps : list cval) (c : cval),
+    value_ok test o (p :: p :: ps) c = value_ok test o (p :: ps) c.
+Proof. exact values_dup. Qed.
+Print Assumptions C12_values_dup.
+
+(* REFUTED without comparability (C11's comparison): {"IpAddress": {k: ["10.0.0.0/8", "::/0"]}} on k = 10.1.1.1/32 is
+   True, with the two values swapped it is None (subnet_of across IP versions raises first); hence also: adding the
+   value "::/0" in front of ["10.0.0.0/8"] turns True into None *)
+Theorem C12_values_order_refuted :
+  exists o ps qs c, negated o = false /\ Permutation ps qs /\
+    value_ok (op_test Witness.idf) o ps c = Some true /\ value_ok (op_test Witness.idf) o qs c = None.
+Proof. exact Witness.values_order_refuted. Qed.
+Print Assumptions C12_values_order_refuted.
+
+Theorem C12_values_monotone_needs_comparable :
+  exists o p ps c, negated o = false /\
+    value_ok (op_test Witness.idf) o ps c = Some true /\ value_ok (op_test Witness.idf) o (p :: ps) c = None.
+Proof. exact Witness.values_monotone_needs_comparable. Qed.
+Print Assumptions C12_values_monotone_needs_comparable.
+
+Theorem C12_values_order_refuted_date :
+  exists ps qs c, Permutation ps qs /\
+    value_ok (op_test Witness.idf) ODateLessThan ps c = Some true /\ value_ok (op_test Witness.idf) ODateLessThan qs c = None.
+Proof. exact Witness.values_order_refuted_date. Qed.
+Print Assumptions C12_values_order_refuted_date.
+
+(* ... and those are the only two operator groups where it can fail: if the listed values agree on whether the context
+   value can be compared at all (uniform_vals), the value list is a set unconditionally; with C11's comparison every
+   operator except IpAddress / NotIpAddress / the four Date orderings is such, for policy values of its type *)
+Theorem C12_values_set_uniform :
+  forall (test : base_op -> cval -> cval -> option bool) (o : base_op) (ps qs : list cval) (c : cval),
+    uniform_vals test o ps c -> (forall p, In p ps <-> In p qs) -> value_ok test o ps c = value_ok test o qs c.
+Proof. exact values_same_set_uniform. Qed.
+Print Assumptions C12_values_set_uniform.
+
+Theorem C12_op_test_uniform :
+  forall (fold : str -> str) (o : base_op) (p q c : cval),
+    uniform_op o = true -> has_fam (family o) p = true -> has_fam (family o) q = true ->
+    (op_test fold o p c = None <-> op_test fold o q c = None).
+Proof. exact op_test_uniform. Qed.
+Print Assumptions C12_op_test_uniform.
+
+Theorem C12_values_set_typed :
+  forall (fold : str -> str) (o : base_op) (ps qs : list cval) (c : cval),
+    uniform_op o = true -> (forall p, In p ps -> has_fam (family o) p = true) -> (forall p, In p ps <-> In p qs) ->
+    value_ok (op_test fold) o ps c = value_ok (op_test fold) o qs c.
+Proof. exact typed_values_set. Qed.
+Print Assumptions C12_values_set_typed.
+
+Theorem C12_negated_values_order_refuted :
+  exists o ps qs c, negated o = true /\ Permutation ps qs /\
+    value_ok (op_test Witness.idf) o ps c = Some false /\ value_ok (op_test Witness.idf) o qs c = None.
+Proof. exact Witness.negated_values_order_refuted. Qed.
+Print Assumptions C12_negated_values_order_refuted.
+
+Theorem C12_block_values_order_refuted :
+  exists b1 b2 ctx, block_rel (fun _ => groups_rel (fun _ pv pv' => Permutation (plist pv) (plist pv'))) b1 b2 /\
+    Witness.ev b1 ctx = Some true /\ Witness.ev b2 ctx = None.
+Proof. exact Witness.block_values_order_refuted. Qed.
+Print Assumptions C12_block_values_order_refuted.
+
+(* one (operator, key) group with a value list *)
+Theorem C12_key_values_monotone :
+  forall (test : base_op -> cval -> cval -> option bool) (e : op_entry) (k : str) (ps ps' : list cval) (ctx : context),
+    negated (e_base e) = false -> incl ps ps' -> comparable_key test (e_base e) ps' ctx k ->
+    eval_key test e k (PMany ps) ctx = Some true -> eval_key test e k (PMany ps') ctx = Some true.
+Proof. exact key_values_monotone. Qed.
+Print Assumptions C12_key_values_monotone.
+
+Theorem C12_key_negated_values_antimonotone :
+  forall (test : base_op -> cval -> cval -> option bool) (e : op_entry) (k : str) (ps ps' : list cval) (ctx : context),
+    negated (e_base e) = true -> incl ps' ps -> comparable_key test (e_base e) ps ctx k ->
+    eval_key test e k (PMany ps) ctx = Some true -> eval_key test e k (PMany ps') ctx = Some true.
+Proof. exact key_negated_values_antimonotone. Qed.
+Print Assumptions C12_key_negated_values_antimonotone.
+
+Theorem C12_key_values_set :
+  forall (test : base_op -> cval -> cval -> option bool) (e : op_entry) (k : str) (ps ps' : list cval) (ctx : context),
+    (forall p, In p ps <-> In p ps') -> comparable_key test (e_base e) ps ctx k ->
+    eval_key test e k (PMany ps) ctx = eval_key test e k (PMany ps') ctx.
+Proof. exact key_values_same_set. Qed.
+Print Assumptions C12_key_values_set.
+
+(* lifted to blocks: b' = b with values ADDED under positive operators and REMOVED under negated ones (value lists
+   only; [looser]): b' is at least as permissive as b *)
+Theorem C12_block_looser :
+  forall (test : base_op -> cval -> cval -> option bool) (ord : list op_entry) (b b' : block) (ctx : context),
+    block_rel (fun n => groups_rel (looser test ord ctx n)) b b' ->
+    eval_block test ord b ctx = Some true -> eval_block test ord b' ctx = Some true.
+Proof. exact block_looser. Qed.
+Print Assumptions C12_block_looser.
+
+(* lifted to blocks: value lists with the same members (any order, any repetition) give the same verdict *)
+Theorem C12_block_values_set :
+  forall (test : base_op -> cval -> cval -> option bool) (ord : list op_entry) (b b' : block) (ctx : context),
+    block_rel (fun n => groups_rel (same_values test ord ctx n)) b b' ->
+    eval_block test ord b ctx = eval_block test ord b' ctx.
+Proof. exact block_values_same_set. Qed.
+Print Assumptions C12_block_values_set.
+
+(* ---- 3. blocks are conjunctions ---- *)
+
+Theorem C12_app :
+  forall (test : base_op -> cval -> cval -> option bool) (ord : list op_entry) (b1 b2 : block) (ctx : context),
+    ops_disjoint b1 b2 ->
+    and3_spec (eval_block test ord b1 ctx) (eval_block test ord b2 ctx) (eval_block test ord (b1 ++ b2) ctx).
+Proof. exact block_app_and3. Qed.
+Print Assumptions C12_app.
+
+Theorem C12_app_true :
+  forall (test : base_op -> cval -> cval -> option bool) (ord : list op_entry) (b1 b2 : block) (ctx : context),
+    ops_disjoint b1 b2 ->
+    (eval_block test ord (b1 ++ b2) ctx = Some true <->
+     eval_block test ord b1 ctx = Some true /\ eval_block test ord b2 ctx = Some true).
+Proof. exact block_app_true. Qed.
+Print Assumptions C12_app_true.
+
+Theorem C12_app_false :
+  forall (test : base_op -> cval -> cval -> option bool) (ord : list op_entry) (b1 b2 : block) (ctx : context),
+    ops_disjoint b1 b2 -> eval_block test ord (b1 ++ b2) ctx = Some false ->
+    eval_block test ord b1 ctx = Some false \/ eval_block test ord b2 ctx = Some false.
+Proof. exact block_app_false. Qed.
+Print Assumptions C12_app_false.
+
+Theorem C12_app_none :
+  forall (test : base_op -> cval -> cval -> option bool) (ord : list op_entry) (b1 b2 : block) (ctx : context),
+    ops_disjoint b1 b2 -> eval_block test ord (b1 ++ b2) ctx = None ->
+    eval_block test ord b1 ctx = None \/ eval_block test ord b2 ctx = None.
+Proof. exact block_app_none. Qed.
+Print Assumptions C12_app_none.
+
+(* False and None really combine to either, depending on the declaration order of the operators in the class *)
+Theorem C12_app_mixed_both_occur :
+  exists b1 b2 b1' b2' ctx, ops_disjoint b1 b2 /\ ops_disjoint b1' b2' /\
+    Witness.ev b1 ctx = Some false /\ Witness.ev b2 ctx = None /\ Witness.ev (b1 ++ b2) ctx = Some false /\
+    Witness.ev b1' ctx = Some false /\ Witness.ev b2' ctx = None /\ Witness.ev (b1' ++ b2') ctx = None.
+Proof. exact Witness.and3_mixed_both_occur. Qed.
+Print Assumptions C12_app_mixed_both_occur.
+
+(* no side condition: the later part is never replaced *)
+Theorem C12_app_later :
+  forall (test : base_op -> cval -> cval -> option bool) (ord : list op_entry) (b1 b2 : block) (ctx : context),
+    eval_block test ord (b1 ++ b2) ctx = Some true -> eval_block test ord b2 ctx = Some true.
+Proof. exact block_app_later. Qed.
+Print Assumptions C12_app_later.
+
+(* adding an operator can only make a block less permissive *)
+Theorem C12_adding_operator_restricts :
+  forall (test : base_op -> cval -> cval -> option bool) (ord : list op_entry) (n : str) (g : groups) (b : block)
+         (ctx : context),
+    eval_block test ord ((n, g) :: b) ctx = Some true -> eval_block test ord b ctx = Some true.
+Proof. exact block_cons_restricts. Qed.
+Print Assumptions C12_adding_operator_restricts.
+
+(* REFUTED for the earlier part (and for an operator added at the END) when a name is spelled again:
+   b1 = {"StringEquals": {"k1": "b"}}, b2 = {"String:Equals": {"k1": "a"}}, {"k1": "a"}: b1 ++ b2 True, b1 False *)
+Theorem C12_app_needs_disjoint :
+  exists b1 b2 ctx, Witness.ev (b1 ++ b2) ctx = Some true /\ Witness.ev b1 ctx = Some false.
+Proof. exact Witness.app_needs_disjoint. Qed.
+Print Assumptions C12_app_needs_disjoint.
+
+(* ---- 4. qualifiers ---- *)
+
+Theorem C12_forall_empty :
+  forall (test : base_op -> cval -> cval -> option bool) (e : op_entry) (k : str) (pv : pvals) (ctx : context),
+    e_qual e = QAll -> ctx_get ctx k = Some (XMany []) -> eval_key test e k pv ctx = Some true.
+Proof. exact forall_empty. Qed.
+Print Assumptions C12_forall_empty.
+
+Theorem C12_forany_empty :
+  forall (test : base_op -> cval -> cval -> option bool) (e : op_entry) (k : str) (pv : pvals) (ctx : context),
+    e_qual e = QAny -> ctx_get ctx k = Some (XMany []) -> eval_key test e k pv ctx = Some false.
+Proof. exact forany_empty. Qed.
+Print Assumptions C12_forany_empty.
+
+(* an ABSENT key: undetermined for both qualifiers (KeyError), True with IfExists *)
+Theorem C12_qualifier_absent :
+  forall (test : base_op -> cval -> cval -> option bool) (e : op_entry) (k : str) (pv : pvals) (ctx : context),
+    e_qual e <> QNone -> ctx_get ctx k = None -> eval_key test e k pv ctx = if e_ifx e then Some true else None.
+Proof. exact qualifier_absent. Qed.
+Print Assumptions C12_qualifier_absent.
+
+Theorem C12_qualifier_app :
+  forall (test : base_op -> cval -> cval -> option bool) (e : op_entry) (k : str) (pv : pvals)
+         (ctx1 ctx2 ctx : context) (cs ds : list cval),
+    e_qual e <> QNone ->
+    ctx_get ctx1 k = Some (XMany cs) -> ctx_get ctx2 k = Some (XMany ds) -> ctx_get ctx k = Some (XMany (cs ++ ds)) ->
+    eval_key test e k pv ctx =
+    (match e_qual e with QAll => and_sc | _ => or_sc end) (eval_key test e k pv ctx1) (eval_key test e k pv ctx2).
+Proof. exact qualifier_app. Qed.
+Print Assumptions C12_qualifier_app.
+
+Theorem C12_forany_monotone :
+  forall (test : base_op -> cval -> cval -> option bool) (e : op_entry) (k : str) (pv : pvals) (ctx ctx' : context)
+         (cs cs' : list cval),
+    e_qual e = QAny -> ctx_get ctx k = Some (XMany cs) -> ctx_get ctx' k = Some (XMany cs') -> incl cs cs' ->
+    (eval_key test e k pv ctx' = Some false -> eval_key test e k pv ctx = Some false) /\
+    ((forall c, In c cs' -> value_ok test (e_base e) (plist pv) c <> None) ->
+     eval_key test e k pv ctx = Some true -> eval_key test e k pv ctx' = Some true).
+Proof. exact forany_monotone. Qed.
+Print Assumptions C12_forany_monotone.
+
+Theorem C12_forany_monotone_app :
+  forall (test : base_op -> cval -> cval -> option bool) (e : op_entry) (k : str) (pv : pvals) (ctx ctx' : context)
+         (cs ds : list cval),
+    e_qual e = QAny -> ctx_get ctx k = Some (XMany cs) -> ctx_get ctx' k = Some (XMany (cs ++ ds)) ->
+    eval_key test e k pv ctx = Some true -> eval_key test e k pv ctx' = Some true.
+Proof. exact forany_monotone_app. Qed.
+Print Assumptions C12_forany_monotone_app.
+
+Theorem C12_forall_antimonotone :
+  forall (test : base_op -> cval -> cval -> option bool) (e : op_entry) (k : str) (pv : pvals) (ctx ctx' : context)
+         (cs cs' : list cval),
+    e_qual e = QAll -> ctx_get ctx k = Some (XMany cs) -> ctx_get ctx' k = Some (XMany cs') -> incl cs cs' ->
+    (eval_key test e k pv ctx' = Some true -> eval_key test e k pv ctx = Some true) /\
+    ((forall c, In c cs' -> value_ok test (e_base e) (plist pv) c <> None) ->
+     eval_key test e k pv ctx = Some false -> eval_key test e k pv ctx' = Some false).
+Proof. exact forall_antimonotone. Qed.
+Print Assumptions C12_forall_antimonotone.
+
+Theorem C12_forall_antimonotone_app :
+  forall (test : base_op -> cval -> cval -> option bool) (e : op_entry) (k : str) (pv : pvals) (ctx ctx' : context)
+         (cs ds : list cval),
+    e_qual e = QAll -> ctx_get ctx k = Some (XMany cs) -> ctx_get ctx' k = Some (XMany (cs ++ ds)) ->
+    eval_key test e k pv ctx = Some false -> eval_key test e k pv ctx' = Some false.
+Proof. exact forall_antimonotone_app. Qed.
+Print Assumptions C12_forall_antimonotone_app.
+
+(* ...IfExists on a present key is the plain operator (absent key: C12_ifexists_absent) *)
+Theorem C12_ifexists_present :
+  forall (test : base_op -> cval -> cval -> option bool) (e e0 : op_entry) (k : str) (pv : pvals) (ctx : context),
+    e_qual e0 = e_qual e -> e_base e0 = e_base e -> e_ifx e0 = false -> present ctx k = true ->
+    eval_key test e k pv ctx = eval_key test e0 k pv ctx.
+Proof. exact ifexists_present. Qed.
+Print Assumptions C12_ifexists_present.
+
+Theorem C12_ifexists_split :
+  forall (test : base_op -> cval -> cval -> option bool) (e e0 : op_entry) (k : str) (pv : pvals) (ctx : context),
+    e_qual e0 = e_qual e -> e_base e0 = e_base e -> e_ifx e0 = false -> e_ifx e = true ->
+    eval_key test e k pv ctx = if present ctx k then eval_key test e0 k pv ctx else Some true.
+Proof. exact ifexists_split. Qed.
+Print Assumptions C12_ifexists_split.
+
+(* ---- 5. context irrelevance at full strength ---- *)
+
+Theorem C12_context_irrelevant :
+  forall (test : base_op -> cval -> cval -> option bool) (ord : list op_entry) (b : block) (ctx ctx' : context),
+    (forall e g k pv, is_set ord b e g -> In (k, pv) g -> ctx_get ctx k = ctx_get ctx' k) ->
+    eval_block test ord b ctx = eval_block test ord b ctx'.
+Proof. exact block_ctx_irrelevant. Qed.
+Print Assumptions C12_context_irrelevant.
+
+Theorem C12_context_irrelevant_keys :
+  forall (test : base_op -> cval -> cval -> option bool) (ord : list op_entry) (b : block) (ctx ctx' : context),
+    (forall k, In k (block_keys b) -> ctx_get ctx k = ctx_get ctx' k) ->
+    eval_block test ord b ctx = eval_block test ord b ctx'.
+Proof. exact block_ctx_irrelevant_keys. Qed.
+Print Assumptions C12_context_irrelevant_keys.
+
+Theorem C12_context_update :
+  forall (test : base_op -> cval -> cval -> option bool) (ord : list op_entry) (b : block) (ctx : context)
+         (k2 : str) (v : ctxval),
+    ~ In k2 (block_keys b) -> eval_block test ord b ((k2, v) :: ctx) = eval_block test ord b ctx.
+Proof. exact block_ctx_update. Qed.
+Print Assumptions C12_context_update.
+
+(* tight: a key that IS mentioned matters *)
+Theorem C12_mentioned_key_matters :
+  exists blk ctx ctx' k, In k (block_keys blk) /\ (forall k', k' <> k -> ctx_get ctx k' = ctx_get ctx' k') /\
+    Witness.ev blk ctx = Some true /\ Witness.ev blk ctx' = Some false.
+Proof. exact Witness.mentioned_key_matters. Qed.
+Print Assumptions C12_mentioned_key_matters.
+
+(* ---- 6. the empty block; Null ---- *)
+
+Theorem C12_empty_block :
+  forall (test : base_op -> cval -> cval -> option bool) (ord : list op_entry) (ctx : context),
+    eval_block test ord [] ctx = Some true.
+Proof. exact block_empty. Qed.
+Print Assumptions C12_empty_block.
+
+Theorem C12_no_keys :
+  forall (test : base_op -> cval -> cval -> option bool) (ord : list op_entry) (b : block) (ctx : context),
+    (forall n g, In (n, g) b -> g = []) -> eval_block test ord b ctx = Some true.
+Proof. exact block_no_keys. Qed.
+Print Assumptions C12_no_keys.
+
+(* Null, as implemented and pinned by the library's tests: {"Null": {k: pb}} is True iff (k present) = pb *)
+Theorem C12_null_presence :
+  forall (fold : str -> str) (e : op_entry) (k : str) (pb : bool) (ctx : context),
+    null_plain e -> ctx_real ctx k ->
+    eval_key (op_test fold) e k (POne (CBool pb)) ctx = Some (Bool.eqb (present ctx k) pb).
+Proof. exact null_presence. Qed.
+Print Assumptions C12_null_presence.
+
+Theorem C12_null_true_iff_present :
+  forall (fold : str -> str) (e : op_entry) (k : str) (ctx : context),
+    null_plain e -> ctx_real ctx k ->
+    (eval_key (op_test fold) e k (POne (CBool true)) ctx = Some true <-> present ctx k = true).
+Proof. exact null_true_iff_present. Qed.
+Print Assumptions C12_null_true_iff_present.
+
+Theorem C12_null_false_iff_absent :
+  forall (fold : str -> str) (e : op_entry) (k : str) (ctx : context),
+    null_plain e -> ctx_real ctx k ->
+    (eval_key (op_test fold) e k (POne (CBool false)) ctx = Some true <-> present ctx k = false).
+Proof. exact null_false_iff_absent. Qed.
+Print Assumptions C12_null_false_iff_absent.
+
+(* "{"Null": {k: true}} is True iff k is ABSENT" (the AWS reading) is FALSE of the evaluation *)
+Theorem C12_null_true_iff_absent_refuted :
+  exists ctx ctx', present ctx Witness.k1 = false /\ present ctx' Witness.k1 = true /\
+    Witness.ev [(Witness.n_Null, [(Witness.k1, POne (CBool true))])] ctx = Some false /\
+    Witness.ev [(Witness.n_Null, [(Witness.k1, POne (CBool true))])] ctx' = Some true.
+Proof. exact Witness.null_true_iff_absent_refuted. Qed.
+Print Assumptions C12_null_true_iff_absent_refuted.
+
+(* interplay with IfExists *)
+Theorem C12_null_false_ifexists :
+  forall (fold : str -> str) (en e : op_entry) (k : str) (pv : pvals) (ctx : context),
+    null_plain en -> ctx_real ctx k -> e_ifx e = true ->
+    eval_key (op_test fold) en k (POne (CBool false)) ctx = Some true -> eval_key (op_test fold) e k pv ctx = Some true.
+Proof. exact null_false_ifexists. Qed.
+Print Assumptions C12_null_false_ifexists.
+
+Theorem C12_null_true_ifexists :
+  forall (fold : str -> str) (en e e0 : op_entry) (k : str) (pv : pvals) (ctx : context),
+    null_plain en -> ctx_real ctx k ->
+    e_qual e0 = e_qual e -> e_base e0 = e_base e -> e_ifx e0 = false ->
+    eval_key (op_test fold) en k (POne (CBool true)) ctx = Some true ->
+    eval_key (op_test fold) e k pv ctx = eval_key (op_test fold) e0 k pv ctx.
+Proof. exact null_true_ifexists. Qed.
+Print Assumptions C12_null_true_ifexists.
+
+(* why there is no NullIfExists field: it could never fail *)
+Theorem C12_null_ifexists_tautology :
+  forall (fold : str -> str) (e : op_entry) (k : str) (ctx : context),
+    e_base e = ONull -> e_qual e = QNone -> e_ifx e = true -> ctx_real ctx k ->
+    eval_key (op_test fold) e k (POne (CBool true)) ctx = Some true.
+Proof. exact null_ifexists_tautology. Qed.
+Print Assumptions C12_null_ifexists_tautology.
+
 Local Open Scope N_scope.
 Definition idf (s : str) : str := s.
 Definition ev := eval_block (op_test idf) OPERATORS.
@@ -146,3 +670,245 @@ Example C12_ex_sat :
   ev [(n_StringEquals, [(k1, POne (S a)); (k2, PMany [S b; S c])]); (n_StringNotEquals, [(k1, POne (S b))])]
      [(k1, XOne (S a)); (k2, XOne (S c))] = Some true.
 Proof. vm_compute. reflexivity. Qed.
+
+(* ---- satisfiability of the hypotheses of the algebra laws (second half of the statements above) ---- *)
+Definition n_Null : str := base_name ONull.
+Definition ent (n : str) (q : qual) (i : bool) (o : base_op) : op_entry :=
+  {| e_name := n; e_qual := q; e_ifx := i; e_base := o; e_fam := family o |}.
+Definition e_SE := ent n_StringEquals QNone false OStringEquals.
+Definition e_SNE := ent n_StringNotEquals QNone false OStringNotEquals.
+Definition e_SEifx := ent (n_StringEquals ++ IFEXISTS) QNone true OStringEquals.
+Definition e_faSE := ent (FORALL ++ n_StringEquals) QAll false OStringEquals.
+Definition e_fySE := ent (FORANY ++ n_StringEquals) QAny false OStringEquals.
+Definition e_Null := ent n_Null QNone false ONull.
+Definition B_two : block := [(n_StringEquals, [(k1, POne (S a))]); (n_StringNotEquals, [(k1, POne (S b))])].
+Definition B_keys : block := [(n_StringEquals, [(k1, POne (S a)); (k2, PMany [S b; S c])])].
+Definition B_keys' : block := [(n_StringEquals, [(k2, PMany [S b; S c]); (k1, POne (S a))])].
+
+Lemma entry_of_name n q o i e : In e OPERATORS -> e_name e = n -> parse_name n = Some (q, o, i) ->
+  e_qual e = q /\ e_base e = o /\ e_ifx e = i.
+Proof.
+  intros He En Hp. destruct (Operators_rows_ok e He) as (_ & Hq & _). rewrite En, Hp in Hq. inversion Hq. auto.
+Qed.
+
+(* C12_operator_order_blind: a two-operator block without repeated names and its reversal *)
+Example C12_ex_operator_order :
+  NoDup (map fst (norm_block B_two)) /\ Permutation B_two (rev B_two)
+  /\ ev B_two [(k1, XOne (S a))] = Some true /\ ev (rev B_two) [(k1, XOne (S a))] = Some true
+  /\ ev B_two [(k1, XOne (S b))] = Some false /\ ev (rev B_two) [(k1, XOne (S b))] = Some false
+  /\ ev B_two [] = None /\ ev (rev B_two) [] = None.
+Proof.
+  split; [apply nodup_names_ok; vm_compute; reflexivity|]. split; [apply Permutation_rev|].
+  repeat split; vm_compute; reflexivity.
+Qed.
+
+(* C12_key_order_blind / _defined / C12_entry_key_order(_defined): two keys swapped, both verdicts defined *)
+Example C12_ex_key_order :
+  let ctx := [(k1, XOne (S a)); (k2, XOne (S x))] in
+  keys_permuted B_keys B_keys'
+  /\ (forall e g k pv, is_set OPERATORS B_keys e g -> In (k, pv) g -> eval_key (op_test idf) e k pv ctx <> None)
+  /\ ev B_keys ctx = Some false /\ ev B_keys' ctx = Some false
+  /\ ev B_keys [(k1, XOne (S a)); (k2, XOne (S c))] = Some true /\ ev B_keys' [(k1, XOne (S a)); (k2, XOne (S c))] = Some true.
+Proof.
+  split; [|split].
+  - constructor; [|constructor]. split; [reflexivity | apply perm_swap].
+  - intros e g k pv Hs Hin. apply in_active in Hs. vm_compute in Hs. destruct Hs as [E|[]]. inversion E; subst. clear E.
+    destruct Hin as [E|[E|[]]]; inversion E; subst; vm_compute; discriminate.
+  - repeat split; vm_compute; reflexivity.
+Qed.
+
+(* C12_values_disjunction / _monotone / _set / _perm (positive) and C12_negated_values_conjunction / _antimonotone *)
+Example C12_ex_values :
+  negated OStringEquals = false /\ negated OStringNotEquals = true
+  /\ comparable_vals (op_test idf) OStringEquals [S a; S b] (S b)
+  /\ comparable_vals (op_test idf) OStringNotEquals [S a; S c] (S b)
+  /\ incl [S b] [S a; S b] /\ incl [S a] [S a; S c]
+  /\ (forall p, In p [S a; S b] <-> In p [S b; S a; S a]) /\ Permutation [S a; S b] [S b; S a]
+  /\ value_ok (op_test idf) OStringEquals [S b] (S b) = Some true
+  /\ value_ok (op_test idf) OStringEquals [S a; S b] (S b) = Some true
+  /\ value_ok (op_test idf) OStringEquals [S b; S a; S a] (S b) = Some true
+  /\ value_ok (op_test idf) OStringEquals [S a; S b] (S c) = Some false
+  /\ value_ok (op_test idf) OStringNotEquals [S a; S c] (S b) = Some true
+  /\ value_ok (op_test idf) OStringNotEquals [S a] (S b) = Some true
+  /\ value_ok (op_test idf) OStringNotEquals [S a] (S a) = Some false
+  /\ value_ok (op_test idf) OStringNotEquals [S a; S c] (S a) = Some false.
+Proof.
+  split; [reflexivity|]. split; [reflexivity|].
+  split; [intros p [<-|[<-|[]]]; vm_compute; discriminate|].
+  split; [intros p [<-|[<-|[]]]; vm_compute; discriminate|].
+  split; [intros p [<-|[]]; simpl; auto|]. split; [intros p [<-|[]]; simpl; auto|].
+  split; [intros p; simpl; tauto|]. split; [apply perm_swap|].
+  repeat split; vm_compute; reflexivity.
+Qed.
+
+(* C12_key_values_monotone / _negated_values_antimonotone / _set: a key with a LIST of request values *)
+Example C12_ex_key_values :
+  let ctx := [(k1, XMany [S x; S b])] in
+  comparable_key (op_test idf) (e_base e_fySE) [S a; S b] ctx k1
+  /\ comparable_key (op_test idf) (e_base e_SNE) [S a; S c] ctx k1
+  /\ eval_key (op_test idf) e_fySE k1 (PMany [S b]) ctx = Some true
+  /\ eval_key (op_test idf) e_fySE k1 (PMany [S a; S b]) ctx = Some true
+  /\ eval_key (op_test idf) e_SNE k1 (PMany [S a; S c]) ctx = Some true
+  /\ eval_key (op_test idf) e_SNE k1 (PMany [S a]) ctx = Some true.
+Proof.
+  split; [|split].
+  - intros v cv Hv Hin. vm_compute in Hv. inversion Hv; subst. clear Hv.
+    destruct Hin as [<-|[<-|[]]]; intros p [<-|[<-|[]]]; vm_compute; discriminate.
+  - intros v cv Hv Hin. vm_compute in Hv. inversion Hv; subst. clear Hv.
+    destruct Hin as [<-|[<-|[]]]; intros p [<-|[<-|[]]]; vm_compute; discriminate.
+  - repeat split; vm_compute; reflexivity.
+Qed.
+
+(* C12_block_looser: a value added under StringEquals, a value removed under StringNotEquals *)
+Example C12_ex_block_looser :
+  let ctx := [(k1, XOne (S a))] in
+  let B := [(n_StringEquals, [(k1, PMany [S a])]); (n_StringNotEquals, [(k1, PMany [S b; S c])])] in
+  let B' := [(n_StringEquals, [(k1, PMany [S b; S a])]); (n_StringNotEquals, [(k1, PMany [S c])])] in
+  block_rel (fun n => groups_rel (looser (op_test idf) OPERATORS ctx n)) B B'
+  /\ ev B ctx = Some true /\ ev B' ctx = Some true.
+Proof.
+  split; [|split; vm_compute; reflexivity].
+  constructor; [|constructor; [|constructor]].
+  - split; [reflexivity|]. constructor; [|constructor]. split; [reflexivity|]. right.
+    exists [S a], [S b; S a]. split; [reflexivity|]. split; [reflexivity|].
+    split; [intros [H|[H|[]]]; discriminate|]. intros e He En. left.
+    destruct (entry_of_name _ QNone OStringEquals false e He En) as (_ & Hb & _); [vm_compute; reflexivity|].
+    rewrite Hb. split; [reflexivity|]. split; [intros p [<-|[]]; simpl; auto|].
+    intros v cv Hv Hin. vm_compute in Hv. inversion Hv; subst. clear Hv.
+    destruct Hin as [<-|[]]; intros p [<-|[<-|[]]]; vm_compute; discriminate.
+  - split; [reflexivity|]. constructor; [|constructor]. split; [reflexivity|]. right.
+    exists [S b; S c], [S c]. split; [reflexivity|]. split; [reflexivity|].
+    split; [intros [H|[]]; discriminate|]. intros e He En. right.
+    destruct (entry_of_name _ QNone OStringNotEquals false e He En) as (_ & Hb & _); [vm_compute; reflexivity|].
+    rewrite Hb. split; [reflexivity|]. split; [intros p [<-|[]]; simpl; auto|].
+    intros v cv Hv Hin. vm_compute in Hv. inversion Hv; subst. clear Hv.
+    destruct Hin as [<-|[]]; intros p [<-|[<-|[]]]; vm_compute; discriminate.
+Qed.
+
+(* C12_block_values_set: the same values in another order, one of them twice *)
+Example C12_ex_block_values_set :
+  let ctx := [(k1, XOne (S b))] in
+  let B := [(n_StringEquals, [(k1, PMany [S a; S b])])] in
+  let B' := [(n_StringEquals, [(k1, PMany [S b; S a; S b])])] in
+  block_rel (fun n => groups_rel (same_values (op_test idf) OPERATORS ctx n)) B B'
+  /\ ev B ctx = Some true /\ ev B' ctx = Some true.
+Proof.
+  split; [|split; vm_compute; reflexivity].
+  constructor; [|constructor]. split; [reflexivity|]. constructor; [|constructor]. split; [reflexivity|]. right.
+  exists [S a; S b], [S b; S a; S b]. split; [reflexivity|]. split; [reflexivity|].
+  split; [intros p; simpl; tauto|]. intros e He En.
+  destruct (entry_of_name _ QNone OStringEquals false e He En) as (_ & Hb & _); [vm_compute; reflexivity|].
+  rewrite Hb. intros v cv Hv Hin. vm_compute in Hv. inversion Hv; subst. clear Hv.
+  destruct Hin as [<-|[]]; intros p [<-|[<-|[]]]; vm_compute; discriminate.
+Qed.
+
+(* C12_app / _true / _false / _none / _later / C12_adding_operator_restricts: two parts with different operators *)
+Example C12_ex_app :
+  let B1 := [(n_StringEquals, [(k1, POne (S a))])] in
+  let B2 := [(n_StringNotEquals, [(k1, POne (S b))])] in
+  ops_disjoint B1 B2
+  /\ ev (B1 ++ B2) [(k1, XOne (S a))] = Some true /\ ev B1 [(k1, XOne (S a))] = Some true /\ ev B2 [(k1, XOne (S a))] = Some true
+  /\ ev (B1 ++ B2) [(k1, XOne (S b))] = Some false /\ ev B1 [(k1, XOne (S b))] = Some false /\ ev B2 [(k1, XOne (S b))] = Some false
+  /\ ev (B1 ++ B2) [(k1, XOne (S c))] = Some false /\ ev B1 [(k1, XOne (S c))] = Some false /\ ev B2 [(k1, XOne (S c))] = Some true
+  /\ ev (B1 ++ B2) [] = None /\ ev B1 [] = None /\ ev B2 [] = None.
+Proof.
+  split; [intros n [<-|[]] [E|[]]; vm_compute in E; discriminate|].
+  repeat split; vm_compute; reflexivity.
+Qed.
+
+(* C12_forall_empty / C12_forany_empty / C12_qualifier_absent / C12_qualifier_app / C12_forany_monotone(_app) /
+   C12_forall_antimonotone(_app) *)
+Example C12_ex_qualifier_laws :
+  let T := op_test idf in
+  e_qual e_faSE = QAll /\ e_qual e_fySE = QAny /\ e_qual e_faSE <> QNone
+  /\ ctx_get [(k1, XMany [])] k1 = Some (XMany []) /\ ctx_get [] k1 = None
+  /\ incl [S a] [S c; S a]
+  /\ (forall cv, In cv [S c; S a] -> value_ok T (e_base e_fySE) (plist (PMany [S a])) cv <> None)
+  /\ eval_key T e_faSE k1 (PMany [S a]) [(k1, XMany [])] = Some true
+  /\ eval_key T e_fySE k1 (PMany [S a]) [(k1, XMany [])] = Some false
+  /\ eval_key T e_faSE k1 (PMany [S a]) [] = None /\ eval_key T e_fySE k1 (PMany [S a]) [] = None
+  /\ eval_key T e_fySE k1 (PMany [S a]) [(k1, XMany [S a])] = Some true
+  /\ eval_key T e_fySE k1 (PMany [S a]) [(k1, XMany [S c; S a])] = Some true
+  /\ eval_key T e_fySE k1 (PMany [S a]) [(k1, XMany ([S a] ++ [S c]))] = Some true
+  /\ eval_key T e_faSE k1 (PMany [S a]) [(k1, XMany [S c; S a])] = Some false
+  /\ eval_key T e_faSE k1 (PMany [S a]) [(k1, XMany [S a])] = Some true
+  /\ eval_key T e_faSE k1 (PMany [S a; S c]) [(k1, XMany [S c; S a])] = Some true
+  /\ eval_key T e_faSE k1 (PMany [S a]) [(k1, XMany ([S c] ++ [S a]))] = Some false.
+Proof.
+  split; [reflexivity|]. split; [reflexivity|]. split; [discriminate|]. split; [reflexivity|]. split; [reflexivity|].
+  split; [intros p [<-|[]]; simpl; auto|].
+  split; [intros cv [<-|[<-|[]]]; vm_compute; discriminate|].
+  repeat split; vm_compute; reflexivity.
+Qed.
+
+(* C12_ifexists_present / C12_ifexists_split: StringEqualsIfExists against StringEquals *)
+Example C12_ex_ifexists :
+  let T := op_test idf in
+  e_qual e_SE = e_qual e_SEifx /\ e_base e_SE = e_base e_SEifx /\ e_ifx e_SE = false /\ e_ifx e_SEifx = true
+  /\ present [(k1, XOne (S x))] k1 = true /\ present [(k1, XOne CNone)] k1 = false /\ present [] k1 = false
+  /\ eval_key T e_SEifx k1 (POne (S a)) [(k1, XOne (S x))] = Some false
+  /\ eval_key T e_SE k1 (POne (S a)) [(k1, XOne (S x))] = Some false
+  /\ eval_key T e_SEifx k1 (POne (S a)) [(k1, XOne (S a))] = Some true
+  /\ eval_key T e_SEifx k1 (POne (S a)) [] = Some true /\ eval_key T e_SE k1 (POne (S a)) [] = None.
+Proof. repeat split; vm_compute; reflexivity. Qed.
+
+(* C12_context_irrelevant(_keys) / C12_context_update: the contexts differ on a key the block does not mention *)
+Example C12_ex_context :
+  let B := [(n_StringEquals, [(k1, POne (S a))])] in
+  let ctx := [(k1, XOne (S a)); (k2, XOne (S b))] in
+  let ctx' := [(k1, XOne (S a)); (k2, XOne (S x))] in
+  (forall k, In k (block_keys B) -> ctx_get ctx k = ctx_get ctx' k)
+  /\ (forall e g k pv, is_set OPERATORS B e g -> In (k, pv) g -> ctx_get ctx k = ctx_get ctx' k)
+  /\ ~ In k2 (block_keys B)
+  /\ ev B ctx = Some true /\ ev B ctx' = Some true /\ ev B ((k2, XOne (S x)) :: ctx) = Some true.
+Proof.
+  split; [intros k [<-|[]]; reflexivity|]. split.
+  - intros e g k pv Hs Hin. apply in_active in Hs. vm_compute in Hs. destruct Hs as [E|[]]. inversion E; subst. clear E.
+    destruct Hin as [E|[]]. inversion E; subst. reflexivity.
+  - split; [intros [E|[]]; vm_compute in E; discriminate|]. repeat split; vm_compute; reflexivity.
+Qed.
+
+(* C12_empty_block / C12_no_keys *)
+Example C12_ex_empty :
+  (forall n g, In (n, g) [(n_StringEquals, @nil (str * pvals)); (n_Null, [])] -> g = [])
+  /\ ev [] [] = Some true /\ ev [] [(k1, XOne (S a))] = Some true
+  /\ ev [(n_StringEquals, []); (n_Null, [])] [(k1, XOne (S a))] = Some true.
+Proof.
+  split; [intros n g [E|[E|[]]]; inversion E; reflexivity|]. repeat split; vm_compute; reflexivity.
+Qed.
+
+(* C12_null_* : Null and its interplay with IfExists, on the live table.
+   {"Null": {"k1": "false"}, "StringEqualsIfExists": {"k1": "x"}} on {}: True (the IfExists test is vacuous);
+   {"Null": {"k1": "true"},  "StringEqualsIfExists": {"k1": "a"}} on {"k1": "a"}: True, on {"k1": "x"}: False, on {}: False *)
+Example C12_ex_null :
+  let T := op_test idf in
+  let n_SEifx := n_StringEquals ++ IFEXISTS in
+  null_plain e_Null /\ ctx_real [(k1, XOne (S a))] k1 /\ ctx_real [] k1 /\ ctx_real [(k1, XOne CNone)] k1
+  /\ eval_key T e_Null k1 (POne (CBool true)) [(k1, XOne (S a))] = Some true
+  /\ eval_key T e_Null k1 (POne (CBool true)) [] = Some false
+  /\ eval_key T e_Null k1 (POne (CBool true)) [(k1, XOne CNone)] = Some false
+  /\ eval_key T e_Null k1 (POne (CBool false)) [] = Some true
+  /\ eval_key T e_Null k1 (POne (CBool false)) [(k1, XOne (S a))] = Some false
+  /\ ev [(n_Null, [(k1, POne (CBool false))]); (n_SEifx, [(k1, POne (S x))])] [] = Some true
+  /\ ev [(n_Null, [(k1, POne (CBool true))]); (n_SEifx, [(k1, POne (S a))])] [(k1, XOne (S a))] = Some true
+  /\ ev [(n_Null, [(k1, POne (CBool true))]); (n_SEifx, [(k1, POne (S a))])] [(k1, XOne (S x))] = Some false
+  /\ ev [(n_Null, [(k1, POne (CBool true))]); (n_SEifx, [(k1, POne (S a))])] [] = Some false.
+Proof.
+  split; [repeat split|]. split; [unfold ctx_real; vm_compute; discriminate|].
+  split; [unfold ctx_real; vm_compute; discriminate|]. split; [unfold ctx_real; vm_compute; discriminate|].
+  repeat split; vm_compute; reflexivity.
+Qed.
+
+(* C12_values_set_uniform / C12_op_test_uniform / C12_values_set_typed: typed values, an incomparable context value *)
+Example C12_ex_values_typed :
+  uniform_op OStringLike = true /\ (forall p, In p [S a; S b] -> has_fam (family OStringLike) p = true)
+  /\ (forall p, In p [S a; S b] <-> In p [S b; S a; S b])
+  /\ uniform_vals (op_test idf) OStringLike [S a; S b] (CInt 7)
+  /\ value_ok (op_test idf) OStringLike [S a; S b] (CInt 7) = None
+  /\ value_ok (op_test idf) OStringLike [S b; S a; S b] (CInt 7) = None
+  /\ value_ok (op_test idf) OStringLike [S a; S b] (S b) = Some true
+  /\ value_ok (op_test idf) OStringLike [S b; S a; S b] (S b) = Some true.
+Proof.
+  split; [reflexivity|]. split; [intros p [<-|[<-|[]]]; reflexivity|]. split; [intros p; simpl; tauto|].
+  split; [left; intros p [<-|[<-|[]]]; vm_compute; reflexivity|]. repeat split; vm_compute; reflexivity.
+Qed.
